@@ -180,6 +180,7 @@ func (mi *MessageInfo) unmarshalPointerLazy(b []byte, p pointer, groupTag protow
 	var lazyIndex []protolazy.IndexEntry
 	var lastNum protowire.Number
 	outOfOrder := false
+	splitIndex := false
 	lazyDecode := false
 	presence = p.Apply(mi.presenceOffset).PresenceInfo()
 	lazy = p.Apply(mi.lazyOffset).LazyInfoPtr()
@@ -359,10 +360,12 @@ func (mi *MessageInfo) unmarshalPointerLazy(b []byte, p pointer, groupTag protow
 				initialized = false
 			}
 		}
+		unknown := false
 		if err != nil {
 			if err != errUnknown {
 				return out, err
 			}
+			unknown = true
 			n = protowire.ConsumeFieldValue(num, wtyp, b)
 			if n < 0 {
 				return out, errDecode
@@ -375,8 +378,14 @@ func (mi *MessageInfo) unmarshalPointerLazy(b []byte, p pointer, groupTag protow
 		}
 		b = b[n:]
 		end := start - len(b)
-		if lazyDecode && f != nil && f.isLazy {
-			if num != lastNum {
+		if lazyDecode && f != nil && f.isLazy && unknown {
+			// The record was not accepted for the field (e.g. wrong wire type)
+			// and lives in the unknown fields: it must not be part of the
+			// lazy index, and it separates the records around it.
+			splitIndex = true
+		} else if lazyDecode && f != nil && f.isLazy {
+			if num != lastNum || splitIndex {
+				splitIndex = false
 				lazyIndex = append(lazyIndex, protolazy.IndexEntry{
 					FieldNum: uint32(num),
 					Start:    uint32(pos),
